@@ -185,7 +185,14 @@ def flatten_conditions(conds):
 def assigned_names(node):
     """Names / dotted attribute paths stored anywhere under node."""
     out = set()
+    scoped = set()
     for n in ast.walk(node):
+        if isinstance(n, (ast.ListComp, ast.SetComp, ast.DictComp, ast.GeneratorExp)):
+            for g in n.generators:
+                scoped |= {id(x) for x in ast.walk(g.target)}
+    for n in ast.walk(node):
+        if id(n) in scoped:
+            continue    # comprehension targets live in their own scope
         if isinstance(n, (ast.Name, ast.Attribute)) and isinstance(getattr(n, "ctx", None), (ast.Store, ast.Del)):
             d = dotted(n)
             if d:
